@@ -25,11 +25,29 @@ pub enum Bad {
     Deadlock { detail: String, trace: Vec<usize> },
 }
 
+/// Per-thread step lists. A `display` issued while the thread holds **no** mutex at all is not an atom:
+/// Guile's ports are not thread-safe (which is why the generated code carries mutexes), so two such calls
+/// on one port can interleave below the call. It is modelled as two writes (first half, second half of the
+/// text) between which other threads may run; a write under any mutex stays one step.
 pub fn build_threads(steps_per_record: &[Vec<Step>], assign: &[usize], n_threads: usize) -> Vec<Vec<StepKind>> {
     let mut t = vec![vec![]; n_threads];
+    let mut held = vec![0usize; n_threads];
     for (i, steps) in steps_per_record.iter().enumerate() {
+        let th = assign[i];
         for s in steps {
-            t[assign[i]].push(s.kind.clone());
+            match &s.kind {
+                StepKind::Lock(_) => held[th] += 1,
+                StepKind::Unlock(_) => held[th] = held[th].saturating_sub(1),
+                StepKind::Write(p, text) if held[th] == 0 && text.chars().count() >= 2 => {
+                    let cs: Vec<char> = text.chars().collect();
+                    let mid = cs.len() / 2;
+                    t[th].push(StepKind::Write(*p, cs[..mid].iter().collect()));
+                    t[th].push(StepKind::Write(*p, cs[mid..].iter().collect()));
+                    continue;
+                }
+                _ => {}
+            }
+            t[th].push(s.kind.clone());
         }
     }
     t
